@@ -429,7 +429,8 @@ class TorchBackend:
                     return self._numpy_ufunc(self._to_numpy(a), self._to_numpy(b))
                 raise
 
-        def reduce(self, a, axis=None):
+        def reduce(self, a, axis=0):
+            # numpy's ufunc.reduce folds along the first axis by default: f/ of a matrix combines its rows
             if self._numpy_ufunc and self._is_object_array(a):
                 return self._numpy_ufunc.reduce(self._to_numpy(a), axis=axis)
             try:
@@ -473,7 +474,7 @@ class TorchBackend:
             return torch.stack(result)
         return self.TorchUfunc(
             self, torch.subtract,
-            lambda a, dim=None: a[0] - torch.sum(a[1:]) if dim is None else None,
+            lambda a, dim=None: (a.flatten()[0] - torch.sum(a.flatten()[1:])) if dim is None else (a[0] - torch.sum(a[1:], dim=0)),
             cumulative_subtract,
             numpy.subtract
         )
@@ -492,7 +493,10 @@ class TorchBackend:
                 for x in a.flatten()[1:]:
                     result = result / x
                 return result
-            return None
+            result = a[0]
+            for x in a[1:]:
+                result = result / x
+            return result
         return self.TorchUfunc(self, torch.divide, reduce_divide, None, numpy.divide)
 
     @property
